@@ -250,19 +250,34 @@ class Executor(ResolutionContext):
         args = list(self._iterate_fields(parent_type, fields))
 
         def _next():
-            try:
-                k, f, n = args.pop(0)
-            except IndexError:
-                return resolved_fields
-            else:
+            # Iterate while fields resolve synchronously (a recursive `_next`
+            # per field overflows the stack on operations with a few hundred
+            # root fields) and only chain through `map_value` when a field's
+            # value is actually deferred.
+            while True:
+                try:
+                    k, f, n = args.pop(0)
+                except IndexError:
+                    return resolved_fields
 
-                def cb(value):
+                state = {"inline": True, "ran": False}
+
+                def cb(value, k=k, state=state):
                     resolved_fields[k] = value
+                    if state["inline"]:
+                        # Called synchronously from within `map_value`: let
+                        # the loop below carry on with the next field.
+                        state["ran"] = True
+                        return None
                     return _next()
 
-                return self.runtime.map_value(
+                chained = self.runtime.map_value(
                     self.resolve_field(parent_type, root, f, n, path + [k]), cb
                 )
+                state["inline"] = False
+                if not state["ran"]:
+                    # Deferred: `cb` resumes the chain once the value is there.
+                    return chained
 
         return _next()
 
